@@ -443,6 +443,45 @@ def genCase (tag : String) (r : Rng) : String × Rng :=
     let (o, r) := genObj 2 r
     (sCase tag ctx g c o, r)
 
+/-- Cyclic graphs whose cycle passes through a DISJUNCTION-typed edge: container nodes (2-element arrays
+    `[/Node [kids]]` or dictionaries `<< /Type /Pages /Kids [kids] >>`) whose kids are typed
+    `leaf | node | tmpl` by name, in a random order, where the non-recursive alternatives are compound (so
+    that they fail one level down, in a pushed child check, before the recursive alternative re-enters a
+    node already being examined).  1..3 nodes; every node lists the next one, the last one lists a random
+    node (possibly itself); some kids are leaves, some are malformed. -/
+def genCycDisj (tag : String) (r : Rng) : String × Rng :=
+  let nm (s : String) : Obj := .name s.toUTF8.toList
+  let isName (s : String) : Chk := .prim ⟨some (.choice [nm s]), .allowed⟩ .name
+  let kT : Bytes := "Type".toUTF8.toList
+  let kK : Bytes := "Kids".toUTF8.toList
+  let (shape, r) := r.nat 2
+  let (nn, r) := r.nat 3
+  let n := nn + 1
+  let (pos, r) := r.nat 3
+  let alts0 : List Chk := [.named "leaf", .named "tmpl"]
+  let alts : List Chk := alts0.take pos ++ [.named "node"] ++ alts0.drop pos
+  let kids : Chk := .array dA (.disj dA (mkAlts alts)) none
+  let mkT (tyName : String) (rest : Option Chk) : Chk :=
+    if shape == 0 then .het dA (mkAlts [isName tyName, rest.getD (.any dA)])
+    else .dict dA (chkLOfList ([(kT, .required, isName tyName)] ++
+            (match rest with | some k => [(kK, .required, k)] | none => [])))
+  let mkO (tyName : String) (ks : List Obj) : Obj :=
+    if shape == 0 then mkArr [nm tyName, mkArr ks]
+    else .dict (mkDict [(kT, nm tyName), (kK, mkArr ks)])
+  let ctx : Ctx := [("node", mkT "Node" (some kids)), ("leaf", mkT "Leaf" none), ("tmpl", mkT "Tmpl" none)]
+  let (back, r) := r.nat n
+  let (g, r) := (List.range n).foldl (fun (acc : Graph × Rng) j =>
+    let i := j + 1
+    let next : Obj := .ref (if i < n then i + 1 else back + 1) 0
+    let (k, r) := acc.2.nat 6
+    let extra : List Obj :=
+      if k == 0 then [mkO "Leaf" []] else if k == 1 then [mkO "Tmpl" [], next]
+      else if k == 2 then [mkO "Bad" []] else if k == 3 then [.ref i 0] else []
+    let (front, r) := r.nat 2
+    let ks := if front == 0 then next :: extra else extra ++ [next]
+    (acc.1 ++ [((i, 0), mkO "Node" ks)], r)) (([] : Graph), r)
+  (sCase tag ctx g (.named "node") (.ref 1 0), r)
+
 /-- exhaustive small enumeration: every one- and two-level specification over a fixed menu of leaf
     checks x a fixed menu of objects over two small graphs (sharing, structurally equal duplicates,
     an undefined reference, a self reference) -/
